@@ -186,7 +186,9 @@ class Check(object):
             'wall_s': round(wall, 2),
             'violations': len(unlisted),
         }
-        if not self.args.replay:
+        # evidence is only written for runs against /repo itself (a run against a scratch tree via WPULL_REPO is a
+        # mutation experiment and must not replace it)
+        if not self.args.replay and os.path.realpath(REPO) == '/repo':
             os.makedirs(os.path.join(VERIF, 'evidence'), exist_ok=True)
             path = os.path.join(VERIF, 'evidence', self.property_id + '.json')
             tmp = path + '.tmp'
